@@ -127,15 +127,16 @@ type chain struct {
 }
 
 type scenario struct {
-	Kind    string           `json:"kind"` // chain | join | deser | convio | conv
-	Chain   *chain           `json:"chain,omitempty"`
-	Chains  []chain          `json:"chains,omitempty"`
-	Text    []byte           `json:"text,omitempty"`
-	Conv    string           `json:"conv,omitempty"` // fs | proc | io
-	Cond    string           `json:"cond,omitempty"` // name of the backend condition
-	Spec    *spec            `json:"spec,omitempty"` // convio
-	Backend *backendScenario `json:"backend,omitempty"`
-	Lib     *libScenario     `json:"lib,omitempty"`
+	Kind      string             `json:"kind"` // chain | join | deser | convio | conv
+	Chain     *chain             `json:"chain,omitempty"`
+	Chains    []chain            `json:"chains,omitempty"`
+	Text      []byte             `json:"text,omitempty"`
+	Conv      string             `json:"conv,omitempty"` // fs | proc | io
+	Cond      string             `json:"cond,omitempty"` // name of the backend condition
+	Spec      *spec              `json:"spec,omitempty"` // convio
+	Backend   *backendScenario   `json:"backend,omitempty"`
+	Lib       *libScenario       `json:"lib,omitempty"`
+	Composite *compositeScenario `json:"composite,omitempty"`
 }
 
 var foreignVals = []error{io.EOF, io.ErrUnexpectedEOF}
@@ -923,6 +924,12 @@ func run(r *h.Run, sc scenario, emit bool) {
 			runBackend(r, *sc.Backend, emit)
 		case "lib":
 			runLib(r, *sc.Lib, emit)
+		case "composite":
+			bases := map[string]bval{}
+			for _, b := range baseValues() {
+				bases[b.name] = b
+			}
+			runComposite(r, *sc.Composite, bases, emit)
 		}
 	})
 }
@@ -1108,6 +1115,7 @@ func main() {
 	// --- backend error values through the converters (known finding first)
 	safely(r, scenario{Kind: "backend"}, func() { backendSweep(r) })
 	safely(r, scenario{Kind: "lib"}, func() { libSweep(r) })
+	safely(r, scenario{Kind: "composite"}, func() { compositeBackendSweep(r) })
 
 	// --- corpus first: the confirmed defect D18 and its variants (reason duplicated when the target is itself reasoned)
 	run(r, scenario{Kind: "chain", Chain: &chain{Base: sent(inv), Ops: []op{{Op: "New", M: []byte("foo")}, {Op: "New", M: []byte("bar")}}}}, true)
